@@ -16,18 +16,17 @@ PROP = Property(
         harnesses=[
             H("c01_check_indices_two_indices", "bounded",
               "Ok ==> forall index in indexes: index < params.m and lottery(phi_f, dense(sigma, msg, index), stake, total) was evaluated and WON",
-              ["SingleSignatureForConcatenation::check_indices"], bound="<= 2 indices (unbounded version: Verus unit check_indices); all u64 values symbolic", replay="custom"),
+              ["SingleSignatureForConcatenation::check_indices"], bound="<= 2 indices (unbounded version: Verus unit check_indices); all u64 values symbolic", replay="none"),
             H("c01_single_signature_verify", "bounded",
               "Ok ==> BlsSignature::verify(sigma, msg||avk.root, pk) succeeded for the given pk, and check_indices post for (msg||root, stake, avk.total_stake)",
-              ["SingleSignatureForConcatenation::verify"], bound="1 index, 1-byte message, 1-byte root", replay="custom"),
-            H("c01_preliminary_verify_2x2", "bounded",
-              "Ok((sigs,vks)) ==> all indices over all signatures pairwise distinct, each < m, each WON with the signature's own committed stake and avk.total_stake on msg||root; count >= k; "
-              "Merkle membership of [(vk_j, stake_j)] in order checked against avk commitment with this proof's batch path; (sigs,vks) == [(sigma_j, vk_j)]",
-              ["ConcatenationProof::preliminary_verify", "SingleSignature::check_indices", "ConcatenationProof::collect_signatures_verification_keys"],
-              bound="<= 2 signatures x <= 2 indices; u64 indices / stakes / k / m fully symbolic", replay="custom", timeout=900),
-            H("c01_verify_2x2", "bounded",
-              "Ok ==> preliminary_verify post and BlsSignature::verify_aggregate(msg||root, [vk_j], [sigma_j]) succeeded on exactly the contained pairs",
-              ["ConcatenationProof::verify"], bound="<= 2 signatures x <= 2 indices", replay="custom", timeout=900),
+              ["SingleSignatureForConcatenation::verify"], bound="1 index, 1-byte message, 1-byte root", replay="none"),
+            H("c01_preliminary_verify_1x2", "bounded", "Ok((sigs,vks)) ==> all indices over all signatures pairwise distinct, each < m, each WON with the signature's own committed stake and avk.total_stake on msg||root; count >= k; Merkle membership of [(vk_j, stake_j)] in order checked against avk commitment with this proof's batch path; (sigs,vks) == [(sigma_j, vk_j)]", ["ConcatenationProof::preliminary_verify", "SingleSignature::check_indices", "ConcatenationProof::collect_signatures_verification_keys"], bound="1 signature x <= 2 indices; u64 indices / stakes / k / m fully symbolic", replay="none", timeout=900),
+            H("c01_preliminary_verify_2x1", "bounded", "Ok((sigs,vks)) ==> all indices over all signatures pairwise distinct, each < m, each WON with the signature's own committed stake and avk.total_stake on msg||root; count >= k; Merkle membership of [(vk_j, stake_j)] in order checked against avk commitment with this proof's batch path; (sigs,vks) == [(sigma_j, vk_j)]", ["ConcatenationProof::preliminary_verify", "SingleSignature::check_indices", "ConcatenationProof::collect_signatures_verification_keys"], bound="<= 2 signatures x <= 1 index each", replay="none", timeout=900),
+            H("c01_verify_2x1", "bounded", "Ok ==> preliminary_verify post and BlsSignature::verify_aggregate(msg||root, [vk_j], [sigma_j]) succeeded on exactly the contained pairs",
+              ["ConcatenationProof::verify"], bound="<= 2 signatures x <= 1 index each", replay="none", timeout=900),
+            H("c01_preliminary_verify_2x2", "bounded", "Ok((sigs,vks)) ==> all indices over all signatures pairwise distinct, each < m, each WON with the signature's own committed stake and avk.total_stake on msg||root; count >= k; Merkle membership of [(vk_j, stake_j)] in order checked against avk commitment with this proof's batch path; (sigs,vks) == [(sigma_j, vk_j)]", ["ConcatenationProof::preliminary_verify", "SingleSignature::check_indices", "ConcatenationProof::collect_signatures_verification_keys"], bound="<= 2 signatures x <= 2 indices", replay="none", tier="thorough", timeout=7000),
+            H("c01_verify_2x2", "bounded", "Ok ==> preliminary_verify post and aggregate verification on exactly the contained pairs",
+              ["ConcatenationProof::verify"], bound="<= 2 signatures x <= 2 indices", replay="none", tier="thorough", timeout=7000),
         ])],
     verus=[VerusUnit(
         "check_indices", "verus/C01/check_indices.tmpl.rs",
